@@ -506,7 +506,17 @@ class ExprMixin(object):
       # for every element (see SpecMixin.comp_contract_call)
       side = []
       i0 = z3.Const(fresh_name('ci'), I)
-      item(i0, side)
+      self.comp_defined = []
+      try:
+        item(i0, side)
+        defined = self.comp_defined
+      finally:
+        self.comp_defined = None
+      if defined:
+        # the element expression subscripts a dict: every key must be present, else KeyError escapes
+        self.oblige('no-exception/KeyError@comprehension', st,
+                    ForAllT([i0], z3.Implies(z3.And(i0 >= 0, i0 < h.len(src.t)), z3.And(defined))),
+                    detail='a dict subscript inside a comprehension element may raise KeyError')
       if side:
         st.assume(ForAllT([i0], z3.Implies(z3.And(i0 >= 0, i0 < h.len(src.t)), z3.And(side))))
         if not getattr(self, '_box_axioms', False) and hasattr(self, 'axioms'):
